@@ -10,6 +10,7 @@
 EXTENDS StoreSeq, Json
 
 CONSTANT OpOf        \* writer -> "root" | "child" | "branch"
+CONSTANT LockedLineage
 VARIABLES hist, todo, smtx, legal
 gvars == <<vars, hist, todo, smtx, legal>>
 
@@ -31,11 +32,16 @@ GPreLoaded(w) == PreLoaded(w) /\ Rec(w, "log.pre") /\ UNCHANGED <<todo, smtx, le
 GFlush(w) == Flush(w) /\ Rec(w, "log.flushed") /\ UNCHANGED <<todo, smtx, legal>>
 GCache(w) == Cache(w) /\ Rec(w, "cache.exit") /\ UNCHANGED <<todo, smtx, legal>>
 GFin(w)   == Fin(w) /\ Rec(w, "api.return") /\ smtx' = None /\ UNCHANGED <<todo, legal>>
+\* LockedLineage = TRUE (the code since the fix of D15): branch / handoff take the seq mutex before the creation frame and
+\* hold it until the lineage frame is appended; FALSE (pinned commit): both frames are written outside the mutex.
 GCreate(w) == /\ todo[w] /\ OpOf[w] = "branch" /\ CreatePre(w)
               /\ todo' = [todo EXCEPT ![w] = FALSE]
-              /\ Rec(w, "log.pre") /\ UNCHANGED <<smtx, legal>>
-GLinPre(w) == LineagePre(w) /\ Rec(w, "log.pre") /\ legal' = (legal /\ smtx = None) /\ UNCHANGED <<todo, smtx>>
-GLinFin(w) == LineageFin(w) /\ Rec(w, "api.return") /\ legal' = (legal /\ smtx = None) /\ UNCHANGED <<todo, smtx>>
+              /\ Rec(w, "log.pre")
+              /\ IF LockedLineage THEN legal' = (legal /\ smtx = None) /\ smtx' = w ELSE UNCHANGED <<smtx, legal>>
+GLinPre(w) == /\ LineagePre(w) /\ Rec(w, "log.pre") /\ UNCHANGED <<todo, smtx>>
+              /\ legal' = IF LockedLineage THEN legal ELSE (legal /\ smtx = None)
+GLinFin(w) == /\ LineageFin(w) /\ Rec(w, "api.return") /\ UNCHANGED todo
+              /\ IF LockedLineage THEN smtx' = None /\ UNCHANGED legal ELSE legal' = (legal /\ smtx = None) /\ UNCHANGED smtx
 
 GNext == \E w \in Writers : GPre(w) \/ GLoad(w) \/ GPreLoaded(w) \/ GFlush(w) \/ GCache(w) \/ GFin(w)
                             \/ GCreate(w) \/ GLinPre(w) \/ GLinFin(w)
